@@ -566,7 +566,7 @@ enum GridPlace {
 fn grid_places<S: Fl>() -> Vec<GridPlace> {
     let mut v = Vec::new();
     let (ks, es, gaps): (&[i32], &[i32], &[i32]) = if S::MANT == 24 {
-        (&[-149, -146, -140, -134, -128, -126, -122, -100, -60, -20, 0, 20, 60, 100, 119], &[-100, -10, 8, 16, 30, 100], &[2, 6, 8, 12, 16, 19])
+        (&[-149, -146, -140, -134, -128, -126, -122, -100, -60, -20, 0, 20, 60, 100, 119], &[-100, -10, 8, 16, 30, 100], &[2, 6, 7, 8, 12, 16, 19])
     } else {
         (&[-1074, -1070, -1060, -1045, -1030, -1024, -1022, -1018, -1000, -700, -300, -60, 0, 60, 300, 700, 1000, 1015], &[-600, -20, 8, 23, 40, 600], &[2, 8, 16, 23, 30, 40, 48])
     };
@@ -667,11 +667,24 @@ fn gen_metric_shape(t: &mut Tape, n: usize, dim: usize) -> Vec<[f64; 3]> {
 pub fn search_regime_case<S: Fl, C: Cv<S>>(t: &mut Tape, cx: &mut Cx) -> CaseResult {
     let n = C::DEG + 1;
     let shape = gen_metric_shape(t, n, C::DIM);
-    const FAR: i32 = 20;
-    let (off, k) = gen_place_metric::<S>(t, cx, &shape, C::DIM, FAR);
+    // farthest query: 2^13..2^14 diameters of the control polygon away. (The binary phase keeps stepping by the
+    // current half interval while the distance decreases, so along a straight evenly spaced curve it walks
+    // distance / speed / h steps: the distance is bounded relative to the curve's own size, not to its offset.)
+    const FAR_J: i32 = 13;
+    let (off, k) = gen_place_metric::<S>(t, cx, &shape, C::DIM, FAR_J + 3);
     let pl = place::<S>(&shape, off, k, C::DIM);
     let cv = C::build(&pl.cp);
     let u = p2(k[0]);
+    let mut diam = 0.0f64;
+    for i in 0..n {
+        for j in 0..i {
+            diam = diam.max(dist2(&pl.m[i], &pl.m[j]).sqrt());
+        }
+    }
+    if diam == 0.0 {
+        cx.label("point-curve");
+        diam = 1.0;
+    }
     // query in shape units: on the curve, next to it, anywhere, far away
     let mode = t.below(4);
     let base = bezn(&pl.m, t.below(9) as f64 / 8.0);
@@ -682,14 +695,22 @@ pub fn search_regime_case<S: Fl, C: Cv<S>>(t: &mut Tape, cx: &mut Cx) -> CaseRes
             0 => base[ax],
             1 => base[ax] + p2(-(t.int(0, 12) as i32)) * t.pick(&[-1.0, 0.0, 1.0]),
             2 => t.range_f64(-16.0, 16.0),
-            _ => p2(t.int(5, FAR as i64 - 1) as i32) * (1.0 + t.unit_f64()) * if t.bool() { -1.0 } else { 1.0 },
+            _ => base[ax] + diam * p2(t.int(5, FAR_J as i64) as i32) * (1.0 + t.unit_f64()) * if t.bool() { -1.0 } else { 1.0 },
         };
         p[ax] = S::of(off[ax] + w * u);
         q[ax] = (p[ax].f() - off[ax]) / u;
     }
     cx.label(["query:on-the-curve", "query:next-to-the-curve", "query:anywhere", "query:far-away"][mode]);
     let direct = t.chance(64);
-    let eps: S = if t.chance(24) { S::epsilon() * S::i(2) } else { S::of(t.pick(&[0.3f64, 1e-2, 1e-3, 1e-4, 1e-6])) };
+    // Requested parameter precision. On a translated curve the evaluated points are quantised to ulp(offset), so
+    // the computed distance is a staircase: the binary phase can sit on a lucky stair through all coarse levels
+    // and then walk a parameter distance ~1 in steps of the first half interval that stays on the stair
+    // (observed: 4.35e9 steps = 23 s for QuadraticBezier2<f64> with epsilon = 2 EPSILON, see assumptions).
+    // That is running time, not a clause of the property: translated cases ask for 1e-6 at the finest (<= ~1e6
+    // steps), only untranslated ones go down to 2 EPSILON.
+    let translated = off.iter().any(|o| *o != 0.0);
+    let fine = t.chance(24);
+    let eps: S = if fine && !translated { S::epsilon() * S::i(2) } else { S::of(t.pick(&[0.3f64, 1e-2, 1e-3, 1e-4, 1e-6])) };
     let (tt, pt, coarse_t): (S, P3<S>, Vec<S>) = if !direct {
         let steps: u16 = 1 + t.below(32) as u16;
         let coarse_t: Vec<S> = (0..steps).map(|i| <S as From<u16>>::from(i) / <S as From<u16>>::from(steps)).collect();
